@@ -500,6 +500,15 @@ impl RefTerm {
 
     // ---- one command ----
 
+    /// Execute a command in the model only (no comparison, nothing adopted). For seed
+    /// prefixes made of cursor addressing and text, whose result is compared as a whole
+    /// by the ordinary `step` that follows.
+    pub fn blind(&mut self, cmd: &Cmd) -> bool {
+        let mut ex = self.expect();
+        ex.pre_grid = self.grid.clone();
+        self.exec(cmd, &mut ex).is_ok()
+    }
+
     pub fn step(&mut self, cmd: &Cmd, real: &Obs) -> StepRes {
         let mut ex = self.expect();
         ex.pre_grid = self.grid.clone();
